@@ -7,6 +7,63 @@ From SG Require Import Base.Prelude Base.GoInt Base.GoFloat Model.LeapArray Mode
 From Gen Require Import Leaf_gen.
 #[local] Open Scope Z_scope.
 
+(* ---- one shape-independent script for every "regenerated decision = model decision" lemma of this file ----
+   [leaf_decide]: case-split on the condition of every if-then-else of the goal (outermost first, so that
+   guarded sub-terms are only visited on the paths that reach them), then in every leaf: evaluate; if the
+   two sides still differ the path must be contradictory - break the recorded conditions into their atoms
+   (andb / orb / negb), use them to rewrite what is left of the goal, split the remaining atoms, and close
+   with reflexivity / lia (integer atoms) / congruence (the same float atom with two truth values).
+   Nothing here depends on the order or nesting of the tests in the generated term. *)
+Ltac split_ifs :=
+  repeat match goal with
+         | |- context [if ?c then _ else _] => destruct c eqn:?
+         end.
+Ltac norm_hyps :=
+  repeat match goal with
+         | H : negb _ = true |- _ => apply Bool.negb_true_iff in H
+         | H : negb _ = false |- _ => apply Bool.negb_false_iff in H
+         | H : andb _ _ = true |- _ => apply Bool.andb_true_iff in H; destruct H
+         | H : orb _ _ = false |- _ => apply Bool.orb_false_iff in H; destruct H
+         | H : andb _ _ = false |- _ => apply Bool.andb_false_iff in H; destruct H
+         | H : orb _ _ = true |- _ => apply Bool.orb_true_iff in H; destruct H
+         | H : true = false |- _ => discriminate H
+         | H : false = true |- _ => discriminate H
+         end.
+Ltac split_hyp_ifs :=
+  repeat match goal with
+         | H : context [if ?c then _ else _] |- _ => destruct c eqn:?
+         end.
+Ltac use_hyps :=
+  repeat match goal with
+         | H : ?a = true |- context [?a] => rewrite H
+         | H : ?a = false |- context [?a] => rewrite H
+         end.
+Ltac split_atoms :=
+  repeat match goal with
+         | |- context [Z.eqb ?a ?b] => destruct (Z.eqb a b) eqn:?
+         | |- context [Z.ltb ?a ?b] => destruct (Z.ltb a b) eqn:?
+         | |- context [Z.leb ?a ?b] => destruct (Z.leb a b) eqn:?
+         | |- context [PrimFloat.ltb ?a ?b] => destruct (PrimFloat.ltb a b) eqn:?
+         | |- context [PrimFloat.leb ?a ?b] => destruct (PrimFloat.leb a b) eqn:?
+         | |- context [PrimFloat.eqb ?a ?b] => destruct (PrimFloat.eqb a b) eqn:?
+         | |- context [float64_equals ?a ?b] => destruct (float64_equals a b) eqn:?
+         end.
+Ltac z_facts :=
+  repeat match goal with
+         | H : Z.eqb _ _ = true |- _ => apply Z.eqb_eq in H
+         | H : Z.eqb _ _ = false |- _ => apply Z.eqb_neq in H
+         | H : Z.ltb _ _ = true |- _ => apply Z.ltb_lt in H
+         | H : Z.ltb _ _ = false |- _ => apply Z.ltb_ge in H
+         | H : Z.leb _ _ = true |- _ => apply Z.leb_le in H
+         | H : Z.leb _ _ = false |- _ => apply Z.leb_gt in H
+         end.
+Ltac leaf_close := first [ reflexivity | congruence | (exfalso; z_facts; lia) | (z_facts; lia) ].
+Ltac leaf_decide :=
+  cbv zeta; split_ifs;
+  first [ reflexivity
+        | repeat (progress (norm_hyps; split_hyp_ifs)); use_hyps; cbn [andb orb negb];
+          first [ leaf_close | split_atoms; cbn [andb orb negb]; leaf_close ] ].
+
 Lemma system_doCheckRule_ok x now load cpu r :
   system_doCheckRule cpu (node_avg_rt x now) (nd_conc x) (node_max_avg x now EvComplete) (node_min_rt x now)
     (node_qps x now EvPass) load (s_metric r) (s_strategy r) (s_trigger r)
@@ -14,22 +71,7 @@ Lemma system_doCheckRule_ok x now load cpu r :
 Proof.
   unfold system_doCheckRule, do_check_rule, check_bbr_simple,
     MtInboundQPS, MtConcurrency, MtAvgRT, MtLoad, MtCpuUsage, BBR.
-  destruct (s_metric r =? 3) eqn:E3.
-  { destruct (PrimFloat.ltb (node_qps x now EvPass) (s_trigger r)); reflexivity. }
-  destruct (s_metric r =? 2) eqn:E2.
-  { destruct (PrimFloat.ltb (f_of_i64 (nd_conc x)) (s_trigger r)); reflexivity. }
-  destruct (s_metric r =? 1) eqn:E1.
-  { destruct (PrimFloat.ltb (node_avg_rt x now) (s_trigger r)); reflexivity. }
-  destruct (s_metric r =? 0) eqn:E0.
-  { destruct (PrimFloat.ltb (s_trigger r) load); [|reflexivity].
-    destruct (s_strategy r =? 1); cbn [negb orb]; [|reflexivity].
-    destruct (1 <? nd_conc x); cbn [andb]; [|reflexivity].
-    match goal with |- context [PrimFloat.ltb ?a ?b] => destruct (PrimFloat.ltb a b) end; reflexivity. }
-  destruct (s_metric r =? 4) eqn:E4; [|reflexivity].
-  destruct (PrimFloat.ltb (s_trigger r) cpu); [|reflexivity].
-  destruct (s_strategy r =? 1); cbn [negb orb]; [|reflexivity].
-  destruct (1 <? nd_conc x); cbn [andb]; [|reflexivity].
-  match goal with |- context [PrimFloat.ltb ?a ?b] => destruct (PrimFloat.ltb a b) end; reflexivity.
+  leaf_decide.
 Qed.
 
 Print Assumptions system_doCheckRule_ok.
@@ -70,7 +112,7 @@ Lemma system_Slot_Check_step_ok x now load cpu r inbound result_nil :
 Proof.
   cbv zeta. rewrite system_doCheckRule_ok. unfold system_Slot_Check_step, check_rules_step.
   destruct (do_check_rule x now load cpu r) as [p v]. cbn [fst snd].
-  destruct inbound, p, result_nil; reflexivity.
+  destruct inbound, p, result_nil; cbn [negb]; leaf_decide.
 Qed.
 
 Print Assumptions system_Slot_Check_step_ok.
